@@ -6,25 +6,25 @@ log=subprocess.check_output(['git','-C','/repo','log','--format=%h %s']).decode(
 hook_commits=[l.split()[0] for l in log if l.split(' ',1)[1].startswith('verif hooks')][::-1]
 lvl={
  'C01':('exploration','property-based testing (proptest) of real executions in a deterministic simulator vs. a clear-text interpreter'),
- 'C02':('fault_enumeration','systematic single-fault enumeration over every message of the corrupted party (structure-aware + byte mutators, taps) vs. an allowed-output-set oracle'),
- 'C03':('fault_enumeration','systematic enumeration of a must-detect table over the online-phase messages (single and paired alterations); abort-within-round oracle on the recorded history'),
- 'C04':('fault_enumeration','must-detect table enumeration (incl. taps and OT-choice index sets) + property-based history invariant (commit before reveal) + transcript predictor for challenge coins'),
- 'C05':('exploration','property-based testing with a history invariant over the recorded, decoded traffic'),
- 'C06':('exploration','repeated-execution statistics (binomial balance test with fixed tail bound), canary search and uniqueness over generated executions'),
- 'C07':('fault_enumeration','pool scan (1-, 2-, 3-subset XOR search, curious-evaluator row probe) over generated honest runs and enumerated deviations'),
- 'C08':('fault_enumeration','systematic enumeration of byte/tree mutations, drops, duplicates and crash points for every message; libFuzzer target c08_msg in the thorough tier'),
+ 'C02':('fault_enumeration','systematic fault enumeration over every message of the corrupted party (structure-aware + byte mutators, paired / zero-element mutations, taps incl. attacker-chosen garbled-row plaintext, rushing cheater that reflects one to three consecutive symmetric rounds) vs. an allowed-output-set oracle; thorough tier repeats the quick case set on a build without debug assertions'),
+ 'C03':('fault_enumeration','systematic enumeration of a must-detect table over the online-phase messages (single and paired alterations); abort-within-round oracle on the recorded history; the case set also runs on a build without debug assertions'),
+ 'C04':('fault_enumeration','must-detect table enumeration (incl. taps, OT-choice index sets, rushing / reflected rounds) + property-based history invariant (commit before reveal) + transcript predictor for challenge coins'),
+ 'C05':('exploration','property-based testing with a history invariant over the recorded, decoded traffic, in honest runs and against a curious output party that marks extra registers'),
+ 'C06':('exploration','repeated-execution statistics (binomial balance test with fixed tail bound), canary search, bit-position disclosure test over 64 executions, GF(2) solve of the peer\'s linear view, curious OT-extension sender, uniqueness over generated executions'),
+ 'C07':('fault_enumeration','pool scan (1-, 2-, 3-subset XOR search, curious-evaluator row probe, repeated-field test) over generated honest runs (incl. multi-batch circuits) and enumerated deviations'),
+ 'C08':('fault_enumeration','systematic enumeration of byte/tree mutations, drops, duplicates and crash points for every message, plus mutations below the encryption (garbled-row plaintext) and of committed strings; libFuzzer target c08_msg and a run on a build without debug assertions in the thorough tier'),
  'C09':('exploration','metamorphic property-based testing: traffic shape equal across executions of one public configuration'),
  'C10':('exploration','property-based testing of the preprocessing relations through plain-typed wrappers'),
  'C11':('exploration','systematic length enumeration + property-based testing of correlated OT'),
- 'C12':('exploration','schedule exploration (random, PCT, starvation, lazy delivery, choice vectors) with exact deadlock detection'),
+ 'C12':('exploration','schedule exploration (random, PCT, starvation, lazy delivery, choice vectors; sends accepted by the scheduler) with exact deadlock detection and a one-operation-per-peer monitor'),
  'C13':('exploration','stateless exhaustive DFS over RPC orders with real sessions (bounded exhaustive for n<=3) + strategy-driven paths with separately delivered responses'),
  'C14':('fault_enumeration','systematic injection of stray commands at every quiescent point and during MPC'),
  'C15':('fault_enumeration','systematic cancel injection at every point incl. while compiling, during MPC and after a rejected duplicate run'),
  'C16':('exploration','exhaustive DFS over orders for every mismatch kind'),
- 'C17':('fault_enumeration','generated batches with interleaving choice vectors, single RPC failure injection and whole-session cancellation'),
- 'C18':('exploration','systematic enumeration of invalid arguments and malformed circuits'),
+ 'C17':('fault_enumeration','generated batches with interleaving choice vectors, single RPC failure injection, whole-session cancellation, two-cancel and cancel-at-delivery families'),
+ 'C18':('exploration','systematic enumeration of invalid arguments (incl. truncation aliases, every position of the output list), malformed circuits and two-call histories on reused circuit objects'),
  'C19':('exploration','model-based property testing of operation sequences (file vs memory vs Vec model); libFuzzer target c19_buf in the thorough tier'),
- 'C20':('exploration','differential testing against harness-side reference implementations (systematic + proptest); libFuzzer target c20_prim in the thorough tier'),
+ 'C20':('exploration','differential testing against harness-side reference implementations (systematic + proptest), stateful operation sequences on the generator (keystream membership, no reuse); libFuzzer target c20_prim in the thorough tier'),
 }
 notes={
  'C02':'single corrupted party; adversary = honest code + outbound proxy + taps; computational security of primitives assumed',
